@@ -663,8 +663,8 @@ def configurations(quick):
             plan.append((kind, SIZES, AB, (1, 2)))
         plan.append(("choice", (0, 1), AB, (1, 2)))
         plan.append(("choice", (2, -1), AB, (1,)))
-        plan.append(("dict2", (0, 1), AB, (1, 2)))
-        plan.append(("dict2", (2, -1), AB, (1,)))  # 4 cache keys: size 2 evicts
+        plan.append(("dict2", (0,), AB, (1, 2)))
+        plan.append(("dict2", (1, 2, -1), AB, (1,)))  # 4 cache keys: size 2 evicts
     else:
         for kind in ("dict", "fstr", "ftriple"):
             plan.append((kind, SIZES, ABC, (1, 2, 3)))
